@@ -2,10 +2,11 @@
 
 // Package c08: stopping and restarting is invisible and never crashes.
 // (1) balloon level, both back-ends: every sequence x every stop point: close + reopen must not change
-//     any later snapshot or proof; (2) resource accounting: repeated open/close cycles must not grow
-//     the process's file-descriptor table; (3) node level: a real single-node server in a child
-//     process is stopped cleanly after p requests (exit status must be 0), restarted on the same
-//     data, and must answer everything exactly like a server that was never stopped.
+//
+//	any later snapshot or proof; (2) resource accounting: repeated open/close cycles must not grow
+//	the process's file-descriptor table; (3) node level: a real single-node server in a child
+//	process is stopped cleanly after p requests (exit status must be 0), restarted on the same
+//	data, and must answer everything exactly like a server that was never stopped.
 package c08
 
 import (
@@ -34,6 +35,7 @@ func TestMain(m *testing.M) {
 }
 
 type bcase struct {
+	LongN   int        `json:"longLog,omitempty"` // n sequential digests instead of named ones
 	Names   []string   `json:"names"`
 	Comp    []int      `json:"comp"`
 	Backend hx.Backend `json:"backend"`
@@ -77,6 +79,12 @@ func observe(c bcase) (obs []string, failure string) {
 	for _, nd := range hx.ByName(c.Names...) {
 		ds = append(ds, nd.D)
 	}
+	if c.LongN > 0 {
+		ds = nil
+		for i := 0; i < c.LongN; i++ {
+			ds = append(ds, hx.SeqDigest(i))
+		}
+	}
 	pos := 0
 	for g, size := range c.Comp {
 		var snaps []*balloon.Snapshot
@@ -102,8 +110,12 @@ func observe(c bcase) (obs []string, failure string) {
 		}
 	}
 	n := uint64(pos)
-	for e := uint64(0); e < n; e++ {
-		for q := e; q < n; q++ {
+	step := uint64(1)
+	if n > 64 {
+		step = n / 16 // a long log: a sample of (event, version) pairs, the snapshots are all compared
+	}
+	for e := uint64(0); e < n; e += step {
+		for q := e; q < n; q += step {
 			var line string
 			pn, msg := ev.Catch(func() {
 				p, err := d.B.QueryDigestMembershipConsistency(ds[e], q)
@@ -119,8 +131,8 @@ func observe(c bcase) (obs []string, failure string) {
 			obs = append(obs, line)
 		}
 	}
-	for j := uint64(0); j < n; j++ {
-		for i := uint64(0); i <= j; i++ {
+	for j := uint64(0); j < n; j += step {
+		for i := uint64(0); i <= j; i += step {
 			var line string
 			pn, msg := ev.Catch(func() {
 				p, err := d.B.QueryConsistency(i, j)
@@ -173,13 +185,21 @@ func balloonLevel(r *ev.Run) {
 						continue
 					}
 					for stop := 0; stop <= len(comp); stop++ {
-						cases = append(cases, bcase{names, comp, be, stop, 1})
+						cases = append(cases, bcase{0, names, comp, be, stop, 1})
 					}
-					cases = append(cases, bcase{names, comp, be, len(comp), 3})
+					cases = append(cases, bcase{0, names, comp, be, len(comp), 3})
 				}
 			}
 		}
 	}
+	// more than one page (1000) of hyper-cache recovery tiles on the durable back-end, stopped before the
+	// last group: the rebuilt in-memory levels must give the same digests as the never-stopped run
+	long := 1201
+	if r.Thorough() {
+		long = 2301
+	}
+	cases = append(cases, bcase{LongN: long, Comp: []int{long - 101, 100, 1}, Backend: hx.Rocks, StopAt: 1, Stops: 1},
+		bcase{LongN: long, Comp: []int{long - 101, 100, 1}, Backend: hx.Rocks, StopAt: 2, Stops: 1})
 	r.Bound("balloon_cases", len(cases))
 	ref := map[string][]string{}
 	var refMu = make(chan struct{}, 1)
@@ -189,12 +209,12 @@ func balloonLevel(r *ev.Run) {
 			return
 		}
 		c := cases[i]
-		key := fmt.Sprint(c.Names, c.Comp, c.Backend)
+		key := fmt.Sprint(c.LongN, c.Names, c.Comp, c.Backend)
 		<-refMu
 		want, ok := ref[key]
 		refMu <- struct{}{}
 		if !ok {
-			w, f := observe(bcase{c.Names, c.Comp, c.Backend, -1, 0})
+			w, f := observe(bcase{c.LongN, c.Names, c.Comp, c.Backend, -1, 0})
 			if f != "" {
 				r.Violation("uninterrupted run fails: "+f, c)
 				return
@@ -266,8 +286,10 @@ func resources(r *ev.Run) {
 }
 
 type ncase struct {
-	Events int `json:"eventsBeforeStop"`
-	Stops  int `json:"stops"`
+	Events   int  `json:"eventsBeforeStop"`
+	Stops    int  `json:"stops"`
+	Snapshot int  `json:"raftSnapshotAfterEvents,omitempty"` // 0 = none
+	Compact  bool `json:"compactLog,omitempty"`
 }
 
 func addBody(i int) []byte {
@@ -320,16 +342,30 @@ func nodeLevel(r *ev.Run) {
 	}
 	var cases []ncase
 	for p := 0; p <= total; p++ {
-		cases = append(cases, ncase{p, 1})
+		cases = append(cases, ncase{Events: p, Stops: 1})
 	}
-	cases = append(cases, ncase{2, 3}, ncase{0, 2})
+	cases = append(cases, ncase{Events: 2, Stops: 3}, ncase{Events: 0, Stops: 2})
+	// a raft snapshot (with and without complete log compaction) somewhere before the stop: at start-up
+	// raft hands the node its last snapshot and replays what follows
+	for _, sn := range []int{1, 3} {
+		for p := sn; p <= total; p++ {
+			if !r.Thorough() && p != sn && p != sn+1 && p != total {
+				continue
+			}
+			cases = append(cases, ncase{Events: p, Stops: 1, Snapshot: sn}, ncase{Events: p, Stops: 1, Snapshot: sn, Compact: true})
+		}
+	}
 	ev.ParallelFor(len(cases), 6, func(ci int) {
 		if !r.Mine(ci) {
 			return
 		}
 		c := cases[ci]
 		db, rf := filepath.Join(base, fmt.Sprintf("n%d-db", ci)), filepath.Join(base, fmt.Sprintf("n%d-raft", ci))
-		n, err := nx.Start(db, rf)
+		var env []string
+		if c.Compact {
+			env = []string{"VERIF_TRAILING0=1"}
+		}
+		n, err := nx.Start(db, rf, env...)
 		if err != nil {
 			r.Violation("a fresh server does not start: "+first(err.Error()), c)
 			return
@@ -343,7 +379,7 @@ func nodeLevel(r *ev.Run) {
 					r.Violation("clean shutdown of a server aborts the process or exits non-zero", map[string]interface{}{"exit": code, "stderr": first(stderr), "eventsBeforeStop": c.Events})
 					return false
 				}
-				n, err = nx.Start(db, rf)
+				n, err = nx.Start(db, rf, env...)
 				if err != nil {
 					r.Violation("a cleanly stopped server does not start again on its data: "+first(err.Error()), c)
 					return false
@@ -352,6 +388,13 @@ func nodeLevel(r *ev.Run) {
 			return true
 		}
 		for i := 0; i < total; i++ {
+			if c.Snapshot > 0 && i == c.Snapshot {
+				if res, err := n.Do(nx.Req{Op: "snapshot"}); err != nil || res.Err != "" {
+					r.Violation("harness: forced raft snapshot failed: "+res.Err, c)
+					n.Kill()
+					return
+				}
+			}
 			if i == c.Events {
 				if !stop() {
 					return
